@@ -853,7 +853,7 @@ func run(e *harness.Env) {
 		"(N=3: 216 triples, N=4: 13824) x packaging variants = every assignment of {part path style, Target spelling, optional parts, decoy part, absent declared part, " +
 		"every package also holds unreferenced shadow members (decoy token) at the locations wrong resolutions of its references would produce; one blank part (every position), one part without the optional companion part the others have (every position), " +
 		"relationship/manifest element order, members before/after infrastructure} with at most B non-default values " +
-		"(quick: N=3,B=1; thorough: N=3,B=2 and N=4,B=1 restricted to path/decoy/companion/blank/absent). distinct = distinct descriptors; non-trivial = any permutation differs from creation order or any variant value is non-default"
+		"(quick: N=3,B=1; thorough: N=3,B=2 and N=4,B=1 restricted to path/decoy/companion/blank/absent). plus sub-space select: every sequence of distinct part indices x every selecting reader call (xlsx Sheets, pptx SlideNumbers) x every declared order x 4 package variants, followed by every unrestricted accessor on the same reader (epub: every accessor as first call). distinct = distinct descriptors; non-trivial = any permutation differs from creation order or any variant value is non-default"
 	e.Assumptions = []string{
 		"archive/zip writes the members in the order given (Go standard library)",
 		"the writers pptxw / epubw / the private XLSX writer emit packages that are valid for OPC / ECMA-376 / EPUB OCF+OPF (structure reviewed against the specifications; the logical input is the oracle)",
@@ -870,6 +870,7 @@ func run(e *harness.Env) {
 		e.SetBudget(13 * time.Minute)
 	}
 	e.Note("bound", "quick: 3 parts, <=1 non-default variant value; thorough: 3 parts <=2, 4 parts <=1 (4 parts: path, decoy, companion, blank, absent deviations only)")
+	selectionSpace(e, dir) // part selections and call sequences on one reader (select.go)
 	formats := []string{"xlsx", "pptx", "epub2", "epub3"}
 	for _, ps := range passes {
 		pm := perms(ps.n)
